@@ -2,13 +2,15 @@
   C43 — property theorems for the model of `mitmproxy/addons/view.py` (View / Focus / Settings / _OrderKey).
 
   `run ops` is the state after ANY sequence of operations (add / update with new attributes / remove / clear /
-  clear-unmarked / set_filter / set_order / set_reversed / toggle_marked / focus-follow / go / next / prev /
+  clear-unmarked / `mutate` = change of a flow that is NOT reported to the view / set_filter / set_order / set_reversed / toggle_marked / focus-follow / go / next / prev /
   focus assignment / settings write) applied to a fresh view; `step s op` is one more operation, its signal
   trace in `trace`.  `shown s` is `list(view)`.
 
-  * `view_eq_sorted_filter`   list(view) is a permutation of the stored flows that pass the filter (and are marked
-                              in marked-only mode), ascending by the current key of the selected order —
-                              descending when reversed
+  * `view_eq_sorted_filter`   listed => stored; a stored flow whose last change the view has seen is listed iff it
+                              passes the filter (and is marked in marked-only mode); those flows are sorted by the
+                              current key of the selected order, descending when reversed
+  * `view_eq_sorted_filter_current`  with no unreported change pending: list(view) is a permutation of the matching
+                              stored flows, sorted (`stale_nil_of_reported`: always so without `mutate`)
   * `each_once`               no flow is listed twice
   * `focus_in_view_or_empty`  the focus is a listed flow; it is None only when nothing is listed
   * `settings_subset_store`   only stored flows have a settings entry
@@ -23,33 +25,71 @@ set_option linter.unusedVariables false
 namespace MitmVerif.Props.C43
 open MitmVerif MitmVerif.C43
 
-private theorem sorted_by_gen {s : VS} (h : Good s) : s.view.Pairwise (fun a b => gen s a ≤ gen s b) := by
-  apply sortedBy_congr _ h.core.sorted
+/-- the flows that were changed behind the view's back (`mutate`) and have not been re-evaluated since: a flow is
+    current again after its own add / update / settings write, all flows are after clear, clear-unmarked, set_filter
+    or toggle_marked (`dirtyStep`) -/
+def stale (ops : List Op) : List Nat := (runD ops).2
+
+private theorem sorted_current {s : VS} {D : List Nat} (h : Good s D) :
+    (s.view.filter (fun g => decide (g ∉ D))).Pairwise (fun a b => gen s a ≤ gen s b) := by
+  have hs : SortedBy (ck s) (s.view.filter (fun g => decide (g ∉ D))) :=
+    List.Pairwise.sublist List.filter_sublist h.core.sorted
+  apply sortedBy_congr _ hs
   intro a ha
-  obtain ⟨k, h1, h2⟩ := h.core.cached a ha
+  have ha' := List.mem_filter.mp ha
+  obtain ⟨k, h1, h2⟩ := h.core.cached a ha'.1
   simp only [ck, h1, Option.getD_some]
-  exact h2 (by simp)
+  exact h2 (by simpa using ha'.2)
 
-private theorem mem_view_iff {s : VS} (h : Good s) (g : Nat) :
-    g ∈ s.view ↔ g ∈ s.store.filter (fun f => visible s f) := by
-  rw [List.mem_filter]
-  constructor
-  · intro hg; exact ⟨h.core.viewSub g hg, (h.core.vis g (h.core.viewSub g hg) (by simp)).mp hg⟩
-  · intro ⟨h1, h2⟩; exact (h.core.vis g h1 (by simp)).mpr h2
+private theorem filter_all {l D : List Nat} (hD : D = []) : l.filter (fun g => decide (g ∉ D)) = l := by
+  subst hD; simp
 
-/-- **the view is the sorted filter**: after any operation sequence `list(view)` is a permutation of the stored
-    flows that match the current filter (and are marked while marked-only is on), and it is sorted by the
-    current value of the selected order's key — ascending, or descending when reversed. -/
+/-- **the view is the sorted filter** — after ANY operation sequence, including changes of flows that are not
+    reported to the view:
+    1. every listed flow is stored (so a removed / cleared flow is gone whatever happened to its key);
+    2. a stored flow whose last change the view has seen (`∉ stale`) is listed iff it matches the current filter
+       (and is marked while marked-only is on);
+    3. among those flows the list is sorted by the current key of the selected order, descending when reversed. -/
 theorem view_eq_sorted_filter (ops : List Op) :
+    let s := run ops
+    (∀ g, g ∈ shown s → g ∈ s.store) ∧
+    (∀ g, g ∈ s.store → g ∉ stale ops → (g ∈ shown s ↔ visible s g = true)) ∧
+    (if s.reversed then ((shown s).filter (fun g => decide (g ∉ stale ops))).Pairwise (fun a b => gen s b ≤ gen s a)
+     else ((shown s).filter (fun g => decide (g ∉ stale ops))).Pairwise (fun a b => gen s a ≤ gen s b)) := by
+  intro s
+  have h : Good s (stale ops) := good_run ops
+  have hsort := sorted_current h
+  unfold shown
+  cases hr : s.reversed with
+  | true =>
+    simp only [if_true, List.mem_reverse]
+    refine ⟨h.core.viewSub, fun g hg hx => h.core.vis g hg hx, ?_⟩
+    rw [List.filter_reverse]
+    exact List.pairwise_reverse.mpr hsort
+  | false =>
+    simp only [Bool.false_eq_true, if_false]
+    exact ⟨h.core.viewSub, fun g hg hx => h.core.vis g hg hx, hsort⟩
+
+/-- … and when every change has been reported (`stale ops = []`, e.g. no `mutate` since the last re-filter, or each
+    followed by the flow's `update`) this is the full statement: `list(view)` is a permutation of the matching stored
+    flows, sorted by the selected order, reversed when requested. -/
+theorem view_eq_sorted_filter_current (ops : List Op) (hcur : stale ops = []) :
     let s := run ops
     (shown s).Perm (s.store.filter (fun f => visible s f)) ∧
     (if s.reversed then (shown s).Pairwise (fun a b => gen s b ≤ gen s a)
      else (shown s).Pairwise (fun a b => gen s a ≤ gen s b)) := by
   intro s
-  have h : Good s := good_run ops
+  have h : Good s (stale ops) := good_run ops
+  have hmem : ∀ g, g ∈ s.view ↔ g ∈ s.store.filter (fun f => visible s f) := by
+    intro g
+    rw [List.mem_filter]
+    constructor
+    · intro hg; exact ⟨h.core.viewSub g hg, (h.core.vis g (h.core.viewSub g hg) (by simp [hcur])).mp hg⟩
+    · intro ⟨h1, h2⟩; exact (h.core.vis g h1 (by simp [hcur])).mpr h2
   have hperm : s.view.Perm (s.store.filter (fun f => visible s f)) :=
-    (List.perm_ext_iff_of_nodup h.core.viewNodup (h.core.storeNodup.filter _)).mpr (mem_view_iff h)
-  have hsort := sorted_by_gen h
+    (List.perm_ext_iff_of_nodup h.core.viewNodup (h.core.storeNodup.filter _)).mpr hmem
+  have hsort := sorted_current h
+  rw [filter_all hcur] at hsort
   unfold shown
   cases hr : s.reversed with
   | true =>
@@ -59,9 +99,31 @@ theorem view_eq_sorted_filter (ops : List Op) :
     simp only [Bool.false_eq_true, if_false]
     exact ⟨hperm, hsort⟩
 
+/-- histories without unreported changes have no stale flows -/
+theorem stale_nil_of_reported (ops : List Op) (h : ∀ f a, Op.mutate f a ∉ ops) : stale ops = [] := by
+  unfold stale runD
+  have key : ∀ (ops : List Op) (p : VS × List Nat), p.2 = [] → (∀ f a, Op.mutate f a ∉ ops) →
+      (ops.foldl (fun p op => (step p.1 op, dirtyStep p.1 p.2 op)) p).2 = [] := by
+    intro ops
+    induction ops with
+    | nil => intro p hp _; exact hp
+    | cons o os ih =>
+      intro p hp hno
+      simp only [List.foldl_cons]
+      apply ih
+      · show dirtyStep p.1 p.2 o = []
+        rw [hp]
+        cases o with
+        | mutate f a => exact absurd (List.mem_cons_self ..) (hno f a)
+        | add f a => simp only [dirtyStep]; split <;> simp
+        | setval f => simp only [dirtyStep]; split <;> simp
+        | _ => simp [dirtyStep]
+      · intro f a hm; exact hno f a (List.mem_cons_of_mem _ hm)
+  exact key ops (init, []) rfl h
+
 /-- **each once**: no flow is listed twice -/
 theorem each_once (ops : List Op) : (shown (run ops)).Nodup := by
-  have h : Good (run ops) := good_run ops
+  have h : Good (run ops) (stale ops) := good_run ops
   unfold shown
   split
   · exact (List.reverse_perm _).nodup_iff.mpr h.core.viewNodup
@@ -73,7 +135,7 @@ theorem focus_in_view_or_empty (ops : List Op) :
     match (run ops).focus with
     | none => shown (run ops) = []
     | some f => f ∈ shown (run ops) := by
-  have h : Good (run ops) := good_run ops
+  have h : Good (run ops) (stale ops) := good_run ops
   have hf := h.focus
   unfold FocusOK at hf
   unfold shown
@@ -116,7 +178,7 @@ structure SigOK (s s' : VS) : Prop where
 
 private theorem in_trace {s : VS} {x : Sig} (h : x ∈ sigs s) : x ∈ s.trace := ((mem_sigs s x).mp h).1
 
-private theorem sigOK_of_shape {s s' : VS} (hg : Good s) (sh : Shape s s') : SigOK s s' := by
+private theorem sigOK_of_shape {s s' : VS} {D : List Nat} (hg : Good s D) (sh : Shape s s') : SigOK s s' := by
   have toSigs : ∀ x : Sig, x ≠ .fchange → x ∈ s'.trace → x ∈ sigs s' := fun x hx h => (mem_sigs s' x).mpr ⟨h, hx⟩
   have nd := hg.core.viewNodup
   have snd := hg.core.storeNodup
@@ -259,6 +321,13 @@ example : (run [.add 0 aM, .toggleMarked, .update 0 aU]).trace.contains (.vrm 0 
 /-- F-C43b: size order, switch to time, grow a flow, switch back: sorted by the current sizes -/
 example : shown (run [.add 0 aU, .add 1 aM, .setOrder 4, .setOrder 1, .update 0 aBig, .setOrder 4]) = [1, 0] := by decide
 example : shown (run [.add 0 aU, .add 1 aM, .setOrder 4, .setReversed true]) = [1, 0] := by decide
+/-- the seeded defect c43-1: size order, the flow grows without an update, the user removes it — it is gone from
+    the list and from the focus, and the removal is announced at its index -/
+example : shown (run [.setOrder 4, .add 0 aU, .add 1 aM, .focus 0, .mutate 0 aBig, .remove 0]) = [1] := by decide
+example : (run [.setOrder 4, .add 0 aU, .add 1 aM, .focus 0, .mutate 0 aBig, .remove 0]).focus = some 1 := by decide
+example : (run [.setOrder 4, .add 0 aU, .add 1 aM, .focus 0, .mutate 0 aBig, .remove 0]).trace.contains (.vrm 0 0) = true := by decide
+example : stale [.add 0 aU, .mutate 0 aBig, .add 1 aM] = [0] := by decide
+example : stale [.add 0 aU, .mutate 0 aBig, .update 0 aBig] = [] := by decide
 /-- the focus follows removals -/
 example : (run [.add 0 aU, .add 1 aM, .remove 1]).focus = some 0 := by decide
 example : (run [.add 0 aU, .remove 0]).focus = none := by decide
